@@ -3,7 +3,8 @@
 # Confirms an independently written breaking change (patch in <worktree>/_seed/patch.diff) and runs our checks against it.
 # Never uses git stash (the stash is shared between worktrees).
 wt=$1; shift; props="$@"
-V=/verif
+V=${VERIF_DIR:-/verif}
+tag=${EVAL_TAG:-cur}
 apply_change() { git -C $wt checkout -q -- src && git -C $wt apply $wt/_seed/patch.diff || echo "APPLY FAILED"; }
 revert_change() { git -C $wt checkout -q -- src; }
 revert_change
@@ -14,7 +15,7 @@ echo "== pinned test suite with the change"; /venv/bin/python $V/tools/baseline.
 for p in $props; do
   echo "== check $p (quick) against the change"
   s=$(date +%s)
-  VERIF_GAMBIT_SRC=$wt/src /venv/bin/python $V/run.py $p --tier quick > /tmp/seed_check_$p.txt 2>&1; rc=$?
+  VERIF_GAMBIT_SRC=$wt/src /venv/bin/python $V/run.py $p --tier quick > /tmp/seed_check_${tag}_$p.txt 2>&1; rc=$?
   e=$(date +%s)
-  echo "rc=$rc $((e-s))s"; grep -E "^violation|^VIOLATION|HARNESS" /tmp/seed_check_$p.txt | cut -c1-300 | head -6
+  echo "rc=$rc $((e-s))s"; grep -E "^violation|^VIOLATION|HARNESS" /tmp/seed_check_${tag}_$p.txt | cut -c1-300 | head -6
 done
